@@ -132,6 +132,10 @@ type hubRun struct {
 	panics     []string
 	pmu        sync.Mutex
 	replayed   map[int]bool // connections that asked for a replay (their expected count differs)
+	// lastPubID: the id answered to the last accepted publication, and the hub incarnation it was made in
+	lastPubID    string
+	lastPubEpoch int
+	lastPubFresh bool // no operation other than publications and API requests since then (no hub-generated update)
 	leidChecks []*leidCheck
 	okPubs     int
 	extra      []h.Violation // oracle findings collected while the case runs
@@ -300,6 +304,18 @@ func (hr *hubRun) derefListed(op hubOp, w *fakeRW, now time.Time, cs hubCase) {
 		}
 		if coll.LastEventID != want {
 			hr.extra = append(hr.extra, h.Violation{Key: "C18:last-event-id-is-not-the-newest-stored-update", What: fmt.Sprintf("the collection reports lastEventID %q; the newest stored update is %q", coll.LastEventID, want), Replay: rp})
+		}
+	}
+	// without a history (local transport) the hub's last event id is the id of the last update it accepted in this
+	// incarnation — whoever was connected when it was published. (With subscription tracking the hub's own events are
+	// updates too: not evaluated then.)
+	if _, isLocal := hr.f.tr.(*mercure.LocalTransport); isLocal && !hr.stopped && (!cs.Cfg.Subscriptions || hr.lastPubFresh) {
+		want := "earliest"
+		if hr.lastPubID != "" && hr.lastPubEpoch == hr.epoch {
+			want = hr.lastPubID
+		}
+		if (hr.lastPubFresh || hr.lastPubID == "") && coll.LastEventID != want && !(cs.Cfg.Subscriptions && !hr.lastPubFresh) {
+			hr.extra = append(hr.extra, h.Violation{Key: "C18:last-event-id-is-not-the-last-accepted-update", What: fmt.Sprintf("the collection reports lastEventID %q; the last publication accepted by this hub was answered %q", coll.LastEventID, want), Replay: rp})
 		}
 	}
 	if op.Topic == "" && !hr.stopped {
@@ -531,6 +547,9 @@ func runHubCaseRaw(c *h.Ctx, r *h.Report, o *gen.Oracle, cs hubCase, uuidGen *co
 			impl = append(impl, got)
 		}
 		for _, op := range cs.Ops {
+			if op.Op != "pub" && !strings.HasPrefix(op.Op, "api.") {
+				hr.lastPubFresh = false
+			}
 			switch op.Op {
 			case "pub":
 				reps := max(op.Repeat, 1)
@@ -563,6 +582,15 @@ func runHubCaseRaw(c *h.Ctx, r *h.Report, o *gen.Oracle, cs hubCase, uuidGen *co
 					}
 					if status == 200 {
 						hr.okPubs++
+						// fresh: nobody is connected, so this publication cannot make the hub generate an update of its own
+						// (no stream can end because of it)
+						open := 0
+						for _, lc := range hr.conns {
+							if !lc.done.Load() {
+								open++
+							}
+						}
+						hr.lastPubID, hr.lastPubEpoch, hr.lastPubFresh = body, hr.epoch, open == 0
 					}
 					emit(h.Line(append(append([]string{"hub.pub"}, a.wire(true)...), "1", h.HexList(form["topic"]), h.Hex(form.Get("retry")),
 						h.B(len(form["private"]) != 0), h.Hex(form.Get("data")), h.Hex(form.Get("id")), h.Hex(form.Get("type")))...),
@@ -635,7 +663,9 @@ func runHubCaseRaw(c *h.Ctx, r *h.Report, o *gen.Oracle, cs hubCase, uuidGen *co
 						if want == "" && cs.Cfg.Compat7 && len(op.LeidL) > 0 {
 							want = op.LeidL[0]
 						}
-						if _, isBolt := hr.f.tr.(*mercure.BoltTransport); isBolt && want != "" && want != "earliest" {
+						// (no retention: with a bounded history the connection's own subscription event may evict the id between
+						// this reading of the bucket and the scan — a false alarm of the first version of this oracle)
+						if _, isBolt := hr.f.tr.(*mercure.BoltTransport); isBolt && cs.Size == 0 && want != "" && want != "earliest" {
 							stored := false
 							for _, id := range storedBefore {
 								stored = stored || id == want
